@@ -50,7 +50,8 @@ Record cframe (s s' : st) : Prop := mkCF {
   CF_path : forall h, hpath (s_be pfs s') h = hpath (s_be pfs s) h;
   CF_sub : forall n q nm, inreg s' n q nm -> inreg s n q nm;
   CF_keep : rkeys s -> forall n q nm, inreg s n q nm -> live s' q -> inreg s' n q nm;
-  CF_rlog : rcalls s' = rcalls s }.
+  CF_rlog : rcalls s' = rcalls s;
+  CF_nsub : forall n q, alookup Nat.eqb q (pn_names (gnode s' n)) <> None -> alookup Nat.eqb q (pn_names (gnode s n)) <> None }.
 
 Lemma cf_refl s : cframe s s.
 Proof. constructor; auto. apply rf_refl. Qed.
@@ -66,6 +67,7 @@ Proof.
     + apply (RF_keys _ _ (CF_rf _ _ X)). exact K.
     + apply (CF_keep _ _ X); auto. apply (RF_live _ _ (CF_rf _ _ Y)). exact L.
   - rewrite (CF_rlog _ _ Y). apply X.
+  - intros n q H. apply (CF_nsub _ _ X). apply (CF_nsub _ _ Y). exact H.
 Qed.
 
 (** states that differ in counts, holders, flags, log only *)
@@ -89,6 +91,7 @@ Proof.
   - intros n q nm. unfold inreg. rewrite GN. auto.
   - intros _ n q nm. unfold inreg. rewrite GN. auto.
   - exact RL.
+  - intros n q. rewrite GN. auto.
 Qed.
 
 Lemma fs_same_refl fs : fs_same fs fs. Proof. repeat split. Qed.
@@ -178,11 +181,12 @@ Lemma cf_set_node_regs n x (s : st) :
   pn_nodes x = pn_nodes (gnode s n) -> pn_deleted x = pn_deleted (gnode s n) ->
   (pkeys (gnode s n) -> pkeys x) ->
   (forall q nm, In (q, nm) (regs_of x) -> In (q, nm) (regs_of (gnode s n))) ->
+  (forall q, alookup Nat.eqb q (pn_names x) <> None -> alookup Nat.eqb q (pn_names (gnode s n)) <> None) ->
   forall s', s' = set_node pfs n x s ->
   (pkeys (gnode s n) -> forall q nm, In (q, nm) (regs_of (gnode s n)) -> live s' q -> In (q, nm) (regs_of x)) ->
   cframe s s'.
 Proof.
-  intros E D Kx Sub s' -> Keep.
+  intros E D Kx Sub NSub s' -> Keep.
   assert (GN : forall m, gnode (set_node pfs n x s) m = if (m =? n) && (n <? nlen s) then x else gnode s m) by (intros; apply gnode_set_node).
   constructor; auto.
   - constructor; auto.
@@ -196,6 +200,8 @@ Proof.
     apply andb_prop in X. destruct X as (X & _). apply Nat.eqb_eq in X. subst. apply Sub.
   - intros K m q nm. unfold inreg. rewrite GN. destruct ((m =? n) && (n <? nlen s)) eqn:X; [|tauto].
     apply andb_prop in X. destruct X as (X & _). apply Nat.eqb_eq in X. subst. apply Keep. apply K.
+  - intros m q. rewrite GN. destruct ((m =? n) && (n <? nlen s)) eqn:X; [|tauto].
+    apply andb_prop in X. destruct X as (X & _). apply Nat.eqb_eq in X. subst. apply NSub.
 Qed.
 
 Lemma cf_remove_child n r (s : st) : ~ live s r -> cframe s (remove_child pfs n r s).
@@ -204,7 +210,7 @@ Proof.
   destruct (alookup Nat.eqb r (pn_names (gnode s n))) as [nm|]; [|apply cf_refl].
   destruct (alookup Nat.eqb nm (pn_refs (gnode s n))) as [m|] eqn:Em; [|apply cf_set_panic].
   pose proof (alookup_In Nat.eqb Nat.eqb_spec _ _ _ Em) as Im.
-  refine (cf_set_node_regs n _ s _ _ _ _ _ eq_refl _); [reflexivity | reflexivity | | |].
+  refine (cf_set_node_regs n _ s _ _ _ _ _ _ eq_refl _); [reflexivity | reflexivity | | | |].
   - intros K. apply pkeys_with_refs; auto. destruct K as (K & _).
     destruct (remove_nat r m); [apply (gadel_nodup Nat.eqb Nat.eqb_spec) | apply (gaset_nodup Nat.eqb Nat.eqb_spec)]; exact K.
   - intros q nm'. rewrite !in_regs_of. cbn [pn_refs pn_with_refs]. intros (mm & H1 & H2).
@@ -212,6 +218,7 @@ Proof.
     + apply In_adel_iff in H1. exists mm. tauto.
     + apply In_aset_inv in H1. destruct H1 as [(-> & ->)|(_ & H1)]; [|eauto].
       exists m. split; auto. rewrite <- Er in H2. apply in_remove_nat in H2. tauto.
+  - intros q. cbn [pn_names pn_with_refs]. rewrite (alookup_adel Nat.eqb Nat.eqb_spec). destruct (q =? r); [congruence | auto].
   - intros K q nm'. rewrite !in_regs_of. cbn [pn_refs pn_with_refs]. intros (mm & H1 & H2) Lq.
     assert (Nq : q <> r). { intros ->. apply Dead. exact Lq. }
     destruct (Nat.eq_dec nm' nm) as [->|Nn].
